@@ -276,7 +276,7 @@ def judge(plan, w, spk, st, rx_done, H, stall_total, probes) -> list[dict]:
     if sess.closed_by == 'exabgp' and not hold_notifs and not notifs and sess.closed_at is not None and sess.closed_at < state_end(w) - 0.5:
         out.append(viol('C12/closed-without-notification', f'session closed by exabgp at t={sess.closed_at:.2f} without NOTIFICATION'))
         return out
-    if not hold_notifs and sess.state != 'closed':
+    if not hold_notifs and not notifs:
         probes['survived_to_end'] += 1
     # (c) keepalive spacing while established
     stop = hold_notifs[0][0] if hold_notifs else end
